@@ -677,7 +677,7 @@ def r203(ctx, rep, f, ev, cg, reach):
                 calls = [(y, (c.get("res") or c.get("fn") or "")) for y, c in tbh.calls(arm["body"])]
                 has = [y for y, c in calls if c == ci]
                 if has:
-                    pre = [y for y, c in calls if c.endswith("::preprocess_status_word")]
+                    pre = [y for y, c in calls if c.endswith("::preprocess_status_word") or c.endswith("::preprocess_tdh")]
                     # enclosing If on running_checks_enabled
                     gated = False
                     for y, m_ in tbh.walk(arm["body"]):
